@@ -3285,11 +3285,8 @@ class Parameters:
             event_type = 'triggered'
         else:
             event_type = 'changed' if watcher.onlychanged else 'set'
-        typed = Event(what=event.what, name=event.name, obj=event.obj, cls=event.cls,
-                      old=event.old, new=event.new, type=event_type)
-        if getattr(event, 'reached', None) and _is_m_caller(watcher.fn):
-            typed = _QueuedEvent.of(typed, event.reached, entered=event.entered)
-        return typed
+        return Event(what=event.what, name=event.name, obj=event.obj, cls=event.cls,
+                     old=event.old, new=event.new, type=event_type)
 
     def _execute_watcher(self, watcher, events):
         if watcher.mode == 'args':
